@@ -290,7 +290,9 @@ func ParseRealtime(content []byte, opts *ParseRealtimeOptions) (*Realtime, error
 	vehiclesByID := map[VehicleID]*Vehicle{}
 	tripIDToVehicleID := map[TripID]VehicleID{}
 	vehicleIDToTripID := map[VehicleID]TripID{}
-	vehiclesWithNoID := []Vehicle{}
+	vehiclesWithNoID := []*Vehicle{}
+	// Trips associated with a vehicle that has no ID; resolved after the loop like the ID-based associations.
+	tripIDToVehicleWithNoID := map[TripID]*Vehicle{}
 	for i, entity := range feedMessage.Entity {
 		if shouldSkip[i] {
 			continue
@@ -339,7 +341,7 @@ func ParseRealtime(content []byte, opts *ParseRealtimeOptions) (*Realtime, error
 				}
 				mergeVehicle(vehiclesByID[*vehicle.ID], *vehicle)
 			} else {
-				vehiclesWithNoID = append(vehiclesWithNoID, *vehicle)
+				vehiclesWithNoID = append(vehiclesWithNoID, vehicle)
 			}
 		}
 		if trip != nil && vehicle != nil {
@@ -349,9 +351,15 @@ func ParseRealtime(content []byte, opts *ParseRealtimeOptions) (*Realtime, error
 				tripIDToVehicleID[trip.ID] = *vehicle.ID
 				vehicleIDToTripID[*vehicle.ID] = trip.ID
 			} else {
-				trip.Vehicle = vehicle
+				tripIDToVehicleWithNoID[trip.ID] = vehicle
 			}
 		}
+	}
+
+	for tripID, vehicle := range tripIDToVehicleWithNoID {
+		trip := tripsById[tripID]
+		trip.Vehicle = vehicle
+		vehicle.Trip = trip
 	}
 
 	for tripID, trip := range tripsById {
@@ -381,7 +389,9 @@ func ParseRealtime(content []byte, opts *ParseRealtimeOptions) (*Realtime, error
 		}
 		return a.LicensePlate < b.LicensePlate
 	})
-	result.Vehicles = append(result.Vehicles, vehiclesWithNoID...)
+	for _, vehicle := range vehiclesWithNoID {
+		result.Vehicles = append(result.Vehicles, *vehicle)
+	}
 	return &result, nil
 }
 
